@@ -42,6 +42,11 @@ CLAIMS = {
             "form writePos-pos<=capacity in front of every slot read in the same critical section, terminal Errored on overrun, "
             "reader/writer index agreement, wait-loop discipline, ID filter and event contents. Exactly-once in-order DELIVERY for all "
             "consumer speeds and 'replay == state' are not decided.", "§3 C02"),
+    "C11": ("table extraction and agreement (status codes, event types, option fields) + wire-taint sink rules + delegation shape + sticky-flag path-cuts",
+            "Decides that error classes survive the wire (server class->code and client code->class tables compose to the identity per RPC), "
+            "that no request can crash a handler through a nil sub-message, an unguarded index, an unchecked assertion or an explicit panic, "
+            "that every option the client sends is read and forwarded 1:1, the metadata write-back, the sticky capability fallback and the "
+            "event-type tables. Observational equivalence on arbitrary sequences is not decided.", "§3 C11"),
     "C12": ("table/constant agreement of the bookmark codec + guard-normal-form path-cut on the range and tail guards",
             "Decides codec agreement and bounds, that a bookmark is accepted only inside the stated window (exact linear normal forms, so "
             "an off-by-one or a dropped gap is a violation) and rejected with the invalid-bookmark class before any goroutine exists, that "
